@@ -433,7 +433,8 @@ def refine_validate(ctx, n, only=None, kind="mix"):
     ctx.impl_traces += rep.get("evaluations", 0)
     # one TLC run per (role, scenario): "-n" = the executions with a fifth actor N calling CloseNow (Extra "N" in the configuration)
     # "-ctx" = the executions whose Writer and Ping contexts the application cancels at seeded moments (CtxProcs = {A, P})
-    parts = {k: ctx.path("refine_%s.ndjson" % k) for k in ("client", "server", "client-n", "server-n", "client-ctx", "server-ctx")}
+    # "-cr" = nobody calls Read: the CloseRead goroutine is the reader (Extra "CR"), the peer may send a data message
+    parts = {k: ctx.path("refine_%s.ndjson" % k) for k in ("client", "server", "client-n", "server-n", "client-ctx", "server-ctx", "client-cr", "server-cr")}
     fh = {k: open(v, "w") for k, v in parts.items()}
     cur, role, kind = [], None, ""
 
@@ -450,6 +451,8 @@ def refine_validate(ctx, n, only=None, kind="mix"):
         elif '"Actor"' in l:
             a = json.loads(l).get("s")
             kind = "-n" if a == "N" else "-ctx" if a == "X" else kind
+        elif '"Scenario"' in l and json.loads(l).get("s") == "cr":
+            kind = "-cr"
         cur.append(l)
     flush()
     for f in fh.values():
